@@ -49,6 +49,7 @@ type Ctx struct {
 	sample     any
 	labels     []string
 	aborted    bool
+	dry        bool
 }
 
 type diverged struct{ msg string }
@@ -68,6 +69,10 @@ func (c *Ctx) next(n int, free bool) int {
 	c.trace = append(c.trace, point{n: n, choice: ch, free: free})
 	return ch
 }
+
+// Dry reports that this execution belongs to another process shard: the harness must return after
+// building its case (all Choose calls made) and before running the code under test.
+func (c *Ctx) Dry() bool { return c.dry }
 
 // Choose returns 0..n-1.  0 is the default answer; any other answer costs one deviation.
 func (c *Ctx) Choose(n int) int { return c.next(n, false) }
@@ -120,11 +125,26 @@ func (c *Ctx) Try(key string, f func()) (panicked bool) {
 			}
 			panicked = true
 			st := string(debug.Stack())
-			c.fails = append(c.fails, Failure{Key: key, Msg: fmt.Sprintf("panic: %v", r), Detail: trimStack(st)})
+			c.fails = append(c.fails, Failure{Key: key + "@" + panicSite(st), Msg: fmt.Sprintf("panic: %v", r), Detail: trimStack(st)})
 		}
 	}()
 	f()
 	return false
+}
+
+// panicSite names the innermost function of the code under test on the panicking stack.
+func panicSite(st string) string {
+	for _, l := range strings.Split(st, "\n") {
+		l = strings.TrimSpace(l)
+		if strings.HasPrefix(l, "github.com/tonkeeper/tongo/") {
+			l = strings.TrimPrefix(l, "github.com/tonkeeper/tongo/")
+			if i := strings.LastIndex(l, "("); i > 0 {
+				l = l[:i]
+			}
+			return l
+		}
+	}
+	return "?"
 }
 
 func trimStack(s string) string {
@@ -174,8 +194,9 @@ type Harness struct {
 	Name  string
 	Bound int // deviation bound for Choose
 	Run   func(c *Ctx)
-	// RootShard, when >0, restricts exploration to executions whose first choice ≡ Shard (mod NShards).
-	// Used by process-level sharding (see mc/worker).
+	// NShards>1: process-level sharding. Every shard walks the whole choice tree, but an execution whose
+	// choice vector hashes to another shard runs "dry" (Ctx.Dry): the harness builds the case and returns
+	// before touching the code under test; only owned executions are run, journaled and counted.
 	NShards, Shard int
 	// Deadline, when non-zero, ends the exploration early with Exhaustive=false.
 	Deadline time.Time
@@ -250,8 +271,22 @@ type ToolError struct{ Msg string }
 
 func (t ToolError) Error() string { return t.Msg }
 
+func (e *explorer) owned(prefix []int) bool {
+	if e.h.NShards <= 1 {
+		return true
+	}
+	for len(prefix) > 0 && prefix[len(prefix)-1] == 0 {
+		prefix = prefix[:len(prefix)-1]
+	}
+	h := fnv.New32a()
+	for _, x := range prefix {
+		h.Write([]byte{byte(x), byte(x >> 8), 0xff})
+	}
+	return int(h.Sum32()%uint32(e.h.NShards)) == e.h.Shard
+}
+
 func (e *explorer) runOnce(prefix []int) (c *Ctx, err error) {
-	c = &Ctx{prefix: prefix}
+	c = &Ctx{prefix: prefix, dry: !e.owned(prefix)}
 	defer func() {
 		if r := recover(); r != nil {
 			if d, ok := r.(diverged); ok {
@@ -263,7 +298,7 @@ func (e *explorer) runOnce(prefix []int) (c *Ctx, err error) {
 			err = ToolError{fmt.Sprintf("harness %s panicked outside Try at %v: %v\n%s", e.h.Name, prefix, r, debug.Stack())}
 		}
 	}()
-	if e.h.Journal != nil {
+	if e.h.Journal != nil && !c.dry {
 		e.h.Journal(prefix)
 	}
 	e.h.Run(c)
@@ -274,6 +309,9 @@ func (e *explorer) runOnce(prefix []int) (c *Ctx, err error) {
 }
 
 func (e *explorer) account(c *Ctx, newPoints int) {
+	if c.dry {
+		return
+	}
 	if c.aborted {
 		e.skipped.Add(1)
 		return
@@ -334,7 +372,7 @@ func (e *explorer) explore(prefix []int) {
 		return
 	}
 	e.account(c, len(c.trace)-len(prefix)+boolInt(len(prefix) > 0))
-	if len(c.fails) > 0 && !c.aborted {
+	if len(c.fails) > 0 && !c.aborted && !c.dry {
 		e.recordViolation(c)
 	}
 	tr := c.trace
@@ -351,9 +389,6 @@ func (e *explorer) explore(prefix []int) {
 		}
 		if cst <= e.h.Bound {
 			for alt := 1; alt < p.n; alt++ {
-				if i == 0 && e.h.NShards > 1 && alt%e.h.NShards != e.h.Shard {
-					continue
-				}
 				np := make([]int, i+1)
 				copy(np, choices[:i])
 				np[i] = alt
@@ -425,35 +460,7 @@ func Explore(h Harness) (Stats, []Violation, error) {
 	e.queue = make(chan []int, 1<<16)
 	var wg sync.WaitGroup
 	e.pending.Add(1)
-	if h.NShards > 1 && h.Shard != 0 {
-		// the root execution (all-default) belongs to shard 0; other shards only run their alternatives.
-		// They still need the root trace to know the arity of point 0: run it silently.
-		go func() {
-			defer e.pending.Done()
-			c, err := e.runOnce(nil)
-			if err != nil {
-				e.toolError.Store(err)
-				e.stop.Store(true)
-				return
-			}
-			if len(c.trace) == 0 {
-				return
-			}
-			p := c.trace[0]
-			for alt := 1; alt < p.n; alt++ {
-				if alt%h.NShards != h.Shard {
-					continue
-				}
-				if !p.free && h.Bound < 1 {
-					continue
-				}
-				e.pending.Add(1)
-				e.queue <- []int{alt}
-			}
-		}()
-	} else {
-		e.queue <- nil
-	}
+	e.queue <- nil
 	for w := 0; w < workers; w++ {
 		wg.Add(1)
 		go func() {
